@@ -298,7 +298,7 @@ def run(report):
     report.exhaustive = not quick
     report.notes.append("thorough: the skeleton product x member sets of size <= 2 is enumerated completely "
                         "(exhaustive:true); quick: all size-0/1 sets and every 6th size-2 set")
-    for s in sorted(open_switches()):
+    for s in sorted(open_switches('C12')):
         report.exclusions.setdefault(s, 0)
     report.assumptions += ["class-creation hooks that look at the namespace (__prepare__, metaclass __new__ reading the dict, "
                            "__set_name__, __slots__) and class metadata are outside the property and are not generated"]
